@@ -252,6 +252,16 @@ func runCheck(cmd, prop, tier, fnFilter, oblFilter string, verbose bool) int {
 	outDir := filepath.Join(verifDir, "out", "smt", prop)
 	os.RemoveAll(outDir)
 	toSolve := rr.obls
+	if cmd == "check" && tier != "quick" && !claimEverything {
+		// thorough tier: everything is solved, but only claimed obligations get the
+		// second attempt (an unclaimed one that stays undecided is no alarm)
+		var lg ledger
+		if loadJSON(filepath.Join(verifDir, "baseline", prop+".json"), &lg) == nil {
+			for _, o := range rr.obls {
+				o.noRetry = !lg.isClaimed(o)
+			}
+		}
+	}
 	if cmd == "check" && tier == "quick" && !claimEverything {
 		// quick tier: only the claimed obligations (and the vacuity covers) are run;
 		// obligations never claimed are reported as not-run
